@@ -149,7 +149,14 @@ func vfLkStep(oracle int, nops int) {
 	if H > 0 {
 		W = vfChoice("W", 3)
 	}
-	st := vfBuildState(env, key, H, W, 0, 1)
+	op := vfChoice("op", nops)
+	// a clock step comes in two shapes: the holders expire first (E=3) and the queue is served, or the
+	// holders stay (E=100) and the queued requests time out one after the other (T=4, then T=9)
+	holdE, dts := uint16(3), [4]int64{4, 5, 6, 6}
+	if op == 2 && W > 0 && vfChoice("longhold", 2) == 1 {
+		holdE, dts = 100, [4]int64{5, 6, 10, 11}
+	}
+	st := vfBuildStateE(env, key, H, W, 0, 1, holdE)
 	if H == 3 && W == 0 && vfChoice("tombstone", 2) == 1 {
 		// the youngest holder is released while an older queued holder stays: its Lock object remains
 		// in the holder queue as a released entry (RemoveLock only pops released entries from the head)
@@ -166,7 +173,6 @@ func vfLkStep(oracle int, nops int) {
 	_ = preLocked
 	_ = preKeys
 
-	op := vfChoice("op", nops)
 	var cmd *protocol.LockCommand
 	switch op {
 	case 0:
@@ -185,8 +191,12 @@ func vfLkStep(oracle int, nops int) {
 		vfUnlockPrio = cmd.TimeoutFlag&0x0010 != 0
 		env.unlock(0, cmd)
 	case 2:
-		// expiry of the holders (E=3 -> deadline now+4), then timeout of the waiters (T=4 -> now+5)
-		vfTick(env, int64(4+vfChoice("dt", 3)))
+		// expiry of the holders (E=3 -> deadline now+4), then timeout of the waiters (T=4 -> now+5, T=9 -> now+10)
+		ndt := 3
+		if holdE == 100 {
+			ndt = 4
+		}
+		vfTick(env, dts[vfChoice("dt", ndt)])
 	}
 	m2 := env.manager(key)
 	post := vfTakeSnap(m2)
